@@ -43,6 +43,7 @@ SameJSON(x, y) == Den(x) = Den(y)
 Wrap(v) == IF "w" \in DOMAIN v THEN v.w ELSE <<>>
 
 \* reflect.Kind classes as equalValue / jsonType see them
+JNReps == {"jsonNumber", "jsonNumberE"}
 IntReps == {"int", "int8", "int16", "int32", "int64", "uint", "uint8", "uint16", "uint32", "uint64", "uintptr", "namedInt"}
 FloatReps == {"float64", "float32", "namedFloat"}
 Kind(v) ==
@@ -67,7 +68,7 @@ EqualCode(x, y) ==
        \* json.Number has Kind String: compared as strings with a string
        LET nmb == IF IsNumberCode(x) THEN x ELSE y
            oth == IF IsNumberCode(x) THEN y ELSE x
-       IN nmb.r = "jsonNumber" /\ oth.t = "str" /\ NumText[nmb.n] = oth.s
+       IN nmb.r \in JNReps /\ oth.t = "str" /\ NumText[nmb.n] = oth.s
   ELSE IF x.t # y.t THEN FALSE
   ELSE IF DEV_EqualKindStrict /\ Kind(x) # Kind(y) THEN FALSE
   ELSE CASE x.t = "bool" -> x.b = y.b
@@ -80,7 +81,7 @@ EqualCode(x, y) ==
 \* jsonType of util.go
 JsonTypeCode(v) ==
   CASE v.t = "null" -> "null"
-    [] v.t = "num"  -> IF v.r = "jsonNumber"
+    [] v.t = "num"  -> IF v.r \in JNReps
                          THEN (IF DEV_JsonNumberIsString THEN "string" ELSE IF NumIsInt[v.n] THEN "integer" ELSE "number")
                          ELSE IF v.r \in IntReps THEN "integer"
                          ELSE IF NumIsInt[v.n] THEN "integer" ELSE "number"
